@@ -537,7 +537,33 @@ def _args_to_input(an) -> Tuple[FunctionInfo, ast.Call]:
     raise AnalysisError("encoder-side ArgsInput(...) constructor not found")
 
 
-def r043(an, rep):
+def _args_evaluator(an, fn):
+    """Evaluates an expression of `fn` over a model of an Args value (properties of the Args class and package helpers included)."""
+    from sa.feval import Obj, ObjEval
+    ci = an.prog.cls("code_data::Args")
+
+    def resolve(name):
+        r = an.prog.resolve_global(fn.module, name, fn)
+        if r and r[0] == "func":
+            return r[1].node
+        for g in an.prog.all_functions():
+            if g.cls is None and g.parent is None and g.name == name and g.module.name.startswith("code_data") and not g.module.is_test:
+                return g.node
+        return None
+    kinds = {"POSITIONAL_ONLY": 0, "POSITIONAL_OR_KEYWORD": 1, "VAR_POSITIONAL": 2, "KEYWORD_ONLY": 3, "VAR_KEYWORD": 4}
+
+    def ev(expr, argp, model, extra_env=None):
+        e = ObjEval(resolve, extra={"_ParameterKind": kinds, "Parameter": kinds, "OrderedDict": dict}, methods={m.name: m.node for m in ci.methods.values()})
+        e.properties = {m.name: m.node for m in ci.methods.values() if "property" in m.decorators}
+        e.module_assigns = fn.module.assigns
+        env = {argp: Obj(model)}
+        env.update(extra_env or {})
+        return e.ev(expr, env)
+    return ev
+
+
+def r043(an, rep, dup=False):
+    from sa.feval import BlockOutcome
     fn, call = _args_to_input(an)
     argp = fn.params[0]
     kws = {k.arg: k.value for k in call.keywords}
@@ -545,15 +571,27 @@ def r043(an, rep):
         kws[f.name] = a
     model = {"positional_only": ("a", "b"), "positional_or_keyword": ("c", "d", "e"), "keyword_only": ("f", "g", "h", "i"),
              "var_positional": "va", "var_keyword": "vk"}
+    # the counts are counts of parameters, not of distinct names: a code object altered by hand (co_varnames with a repeated name) keeps its counts
+    model_dup = {"positional_only": ("a", "a"), "positional_or_keyword": ("c", "a", "e"), "keyword_only": ("f", "c", "f", "i"),
+                 "var_positional": "a", "var_keyword": "f"}
     want = {"argcount": 5, "posonlyargcount": 2, "kwonlyargcount": 4}
+    aev = _args_evaluator(an, fn)
     for name, w in want.items():
         e = inline_locals(fn.node, kws[name])
-        try:
-            got = feval(e, {argp: model, "len": len})
-        except FevalError as ex:
-            raise AnalysisError(f"{fn.qual}: {name} expression {norm_src(e)} not evaluable: {ex}")
+        res = []
+        for mdl in (model, model_dup):
+            try:
+                res.append(aev(e, argp, mdl))
+            except (FevalError, KeyError, TypeError, BlockOutcome) as ex:
+                raise AnalysisError(f"{fn.qual}: {name} expression {norm_src(e)} not evaluable: {ex}")
+        got, got_dup = res
         rep.add("R04.3", f"{fn.qual}::{name}", got == w, loc(fn.module, kws[name]),
                 f"{name} = {norm_src(e)}" if got == w else f"{name} = {norm_src(e)} gives {got} for 2 positional-only, 3 positional-or-keyword, 4 keyword-only parameters; CPython's count is {w}")
+        if got == w and dup:
+            rep.add("R04.3", f"{fn.qual}::{name} counts parameters, not distinct names", got_dup == w, loc(fn.module, kws[name]),
+                    f"{name} is {w} also when names repeat" if got_dup == w else
+                    f"{name} = {norm_src(e)[:80]} gives {got_dup} instead of {w} when parameter names repeat (a code object whose co_varnames were altered by hand, e.g. ('a', 'a', 'c', ...)): "
+                    f"from_code returns data for it without complaint and to_code() then writes a smaller count - silently lossy")
     # flags
     for fld, flag in (("var_positional", "VARARGS"), ("var_keyword", "VARKEYWORDS")):
         res = {}
@@ -565,8 +603,8 @@ def r043(an, rep):
             for st in fn.node.body:
                 if isinstance(st, ast.If):
                     try:
-                        tv = bool(feval(st.test, {argp: m}))
-                    except FevalError as ex:
+                        tv = bool(aev(inline_locals(fn.node, st.test), argp, m))
+                    except (FevalError, KeyError, TypeError) as ex:
                         raise AnalysisError(f"{fn.qual}: flag guard {norm_src(st.test)} not evaluable: {ex}")
                     for b in (st.body if tv else st.orelse):
                         for n in ast.walk(b):
